@@ -629,6 +629,28 @@ func c06rules(c *Ctx, w *World, pfx string) {
 					okIdx = true
 				}
 				r.Check("dispatch:index-is-range-index", okIdx, in.Pos(), "index "+pathOf(iv)+" must be the range key over the split result")
+				// ... and the loop runs over all of it: it is left only where the index is compared with the
+				// length (no break, return or second loop condition stops the walk while splits remain)
+				if ph != nil {
+					h := ph.Block()
+					early := ""
+					if body := loopBody(h); body != nil && body[in.Block()] {
+						for _, ex := range earlyExits(h) {
+							if _, isPanic := ex[1].Instrs[len(ex[1].Instrs)-1].(*ssa.Panic); isPanic {
+								continue
+							}
+							early = fmt.Sprintf("the loop can be left from block %d (%s)", ex[0].Index, ex[0].Comment)
+						}
+						if iff, ok := h.Instrs[len(h.Instrs)-1].(*ssa.If); ok {
+							if b := asBinOp(iff.Cond, token.LSS); b == nil {
+								early = "the loop condition is not the index bound"
+							}
+						}
+					} else {
+						early = "the hand-over is not inside the loop over the split result"
+					}
+					r.Check("dispatch:every-split-visited", early == "", in.Pos(), "the loop over the split result ends only at its end "+early)
+				}
 			}
 		})
 		r.Check("dispatch:one-send-site", nsend == 1, fn.Pos(), fmt.Sprintf("%d send sites", nsend))
